@@ -67,8 +67,9 @@ class Ctx:
         self.extra = {}
         self.rule = ""
         self.bin = None
-        self.findings = [f for f in load_findings() if pid in f.get("properties", [f.get("property")])]
+        self.findings = [f for f in load_findings() if pid in f.get("properties", [])]
         self.open_findings = sorted(f["name"] for f in self.findings if f.get("status") == "open")
+        self.enforce = [pid]      # property ids whose oracles the trace specs enforce in this run
 
     # ------------------------------------------------------------------ build
     def build(self):
@@ -114,6 +115,9 @@ class Ctx:
         """Exhaustive (or simulated) model checking of spec/<module>.tla with spec/<cfg>.
         Any invariant violation here is a defect of the *model* (it does not depend on /repo) and
         is reported as a tool error."""
+        if os.environ.get("VERIF_SKIP_MC") == "1":   # selftest only: the model does not depend on /repo
+            log("[mc] skipped (VERIF_SKIP_MC=1)")
+            return ""
         cfg = cfg or (module + ".cfg")
         workers = workers or min(NCPU, 16)
         meta = os.path.join(self.work, "mc-" + module + "-" + re.sub(r"\W", "_", cfg))
@@ -173,7 +177,7 @@ class Ctx:
         meta = os.path.join(self.work, "tr-%s-%d" % (module, idx))
         devfile = os.path.join(self.work, "devs-%s-%d.json" % (module, idx))
         with open(devfile, "w") as f:
-            json.dump(list(devs), f)
+            json.dump({"devs": list(devs), "props": list(self.enforce)}, f)
         env = {"TRACE": path, "DEVS": devfile, "STOPAT": str(stop_at or 0)}
         args = ["-workers", "1", "-metadir", meta, "-cleanup", "-noGenerateSpecTE", "-config", cfg,
                 module + ".tla"]
@@ -229,6 +233,15 @@ class Ctx:
             self.transitions += st["generated"]
             self._known_lines(out)
             m = re.search(r'<<"REJECT", (\d+)(?:, (.*))?>>', out)
+            inv = re.search(r"Invariant (\w+) is violated", out)
+            if inv and inv.group(1) != "NotStop":
+                # a state invariant failed on a state reached while explaining the trace
+                pos = [int(x) for x in re.findall(r"^/\\ l = (\d+)", out, re.M)]
+                line = (pos[-1] if pos else 1)
+                failed_inv = inv.group(1)
+                m = re.match(r"(\d+)", str(line))
+            else:
+                failed_inv = None
             if rc == 0 and "TRACE-ACCEPTED" in out and not m:
                 accepted += len(pending)
                 break
@@ -245,10 +258,17 @@ class Ctx:
             accepted += si
             scn, evs = pending[si]
             first = owner.index(si)
-            state = self._state_before(module, cfg, path, idx * 100 + rnd + 50, line, timeout)
-            self.violation(scn, evs, "event %d of scenario (%s) is not a step of %s" %
-                           (line - first, json.dumps(evs[min(line - 1 - first, len(evs) - 1)])[:300], module),
-                           spec_state=state)
+            failed = sorted(set(re.findall(r'<<"FAILED", "([^"]+)", %d>>' % line, out)))
+            if failed_inv:
+                what = "invariant %s of %s violated while explaining the scenario (near event %d)" % (
+                    failed_inv, module, line - first)
+                state = out[out.rfind("\nState "):][:6000] if "\nState " in out else None
+            else:
+                state = self._state_before(module, cfg, path, idx * 100 + rnd + 50, line, timeout)
+                what = "event %d of the scenario is not a step of %s%s: %s" % (
+                    line - first + 1, module, (" [failed: " + "; ".join(failed) + "]") if failed else "",
+                    json.dumps(evs[min(line - 1 - first, len(evs) - 1)])[:300])
+            self.violation(scn, evs, what, spec_state=state)
             rejects += 1
             pending = pending[si + 1:]
             if rejects >= max_rejects or len(self.violations) >= 8:
